@@ -213,6 +213,14 @@ def run_case(desc):
         before = table_state(proj, db)
         sig_before = stored_apps(proj, db)
         # ---- the action
+        # a third of the purges are the second purge of one process: the
+        # same purge is first carried out on a copy of the database
+        rehearse, rehearse_kw = {}, {}
+        if mode in ('purge_cmd', 'purge_api') and desc['i'] % 3 == 0:
+            proj.copy_db(db, 'rehearsal.sqlite3')
+            rehearse = {'rehearse_on': 'other'}
+            rehearse_kw = {'db2': 'rehearsal.sqlite3'}
+            stats['second_purge_of_process'] = 1
         if mode == 'delete_model':
             ev = proj.run('evolve_cmd', version=1, db=db, apps=keep_apps)
         elif mode == 'no_purge':
@@ -220,7 +228,7 @@ def run_case(desc):
                           version=0, db=db, apps=keep_apps)
         elif mode == 'purge_cmd':
             ev = proj.run('evolve_cmd', version=0, db=db, apps=keep_apps,
-                          args={'purge': True})
+                          args=dict({'purge': True}, **rehearse), **rehearse_kw)
         else:
             purge_args = {'purge': True}
             if len(subset) >= 2 and rng.random() < 0.5:
@@ -242,8 +250,9 @@ def run_case(desc):
                     removed_sig = set(part)
             ev = proj.run('evolve_api', version=0, db=db, apps=keep_apps,
                           args=dict(purge_args, force=True,
-                                    no_facts_before=True))
-        ctx = {'mode': mode}
+                                    no_facts_before=True, **rehearse),
+                          **rehearse_kw)
+        ctx = {'mode': mode, 'second_run_of_process': bool(rehearse)}
         if mode != 'delete_model':
             ctx['n_removed_apps'] = len(subset)
             stats['removed_%d_apps' % len(subset)] = 1
